@@ -5,6 +5,7 @@ retry structure   parseToken_eq_attempts, attempts_isErr_comm, jwt_attempts_comm
                   parseToken_accepts_only_fully_verified, parseToken_accepted_set_independent_of_order,
                   parseToken_follows_calls, calls_parse_only_the_two_secrets,
                   signature_only_fallback_accepts_expired (witness)
+flush             flush_partial_write_is_ciphertext_prefix, flush_complete_write
 concurrency       Conc.stepPc_good, Conc.step_inv, Conc.run_inv, Conc.init_inv,
                   Conc.concurrent_outcome_is_the_attempts_in_some_order, Conc.concurrent_acceptance_independent_of_schedule,
                   Conc.concurrent_jwt_outcome_is_sequential
@@ -278,6 +279,27 @@ example : (run exReqs (init 2 [("cur", 3)]) [(0, false), (1, false), (1, false),
       (0, false), (0, false), (0, false), (0, false), (0, false)]).pcs = [.done (.tok true none), .done (.tok true none)] := by decide
 
 end Conc
+
+/-! ## `flush`: a failing or short write of the encrypted reply -/
+
+/-- whatever the underlying writer does with the reply, what the client gets is a prefix of the base64 CIPHERTEXT the
+complete write would have delivered — never the plaintext the handler wrote — and the handler's run, what it saw and the
+status are untouched -/
+theorem flush_partial_write_is_ciphertext_prefix (C : BlockCipher) (key seen out : Bytes) (n : Nat) :
+    (writtenPrefix n (flushResp C key seen out)).body = ((flushResp C key seen out).body).take n ∧
+    (writtenPrefix n (flushResp C key seen out)).ran = (flushResp C key seen out).ran ∧
+    (writtenPrefix n (flushResp C key seen out)).seen = seen ∧
+    (writtenPrefix n (flushResp C key seen out)).status = (flushResp C key seen out).status :=
+  ⟨rfl, rfl, (flushResp_ran_seen C key seen out).2, rfl⟩
+
+/-- a writer that takes everything: nothing changes -/
+theorem flush_complete_write (r : Resp) (n : Nat) (h : r.body.length ≤ n) : writtenPrefix n r = r := by
+  unfold writtenPrefix
+  rw [List.take_of_length_le h]
+
+/-- the reply the client can decode from a COMPLETE write is the handler's reply (reply_round_trip); from a partial one it
+gets a strict prefix of the text, which `properlyEncrypted` refuses unless it is itself whole blocks -/
+example : (writtenPrefix 4 { ran := true, status := 200, body := [1, 2, 3, 4, 5, 6] : Resp }).body = [1, 2, 3, 4] := by decide
 
 /-! ### witness: what goes wrong when the second attempt is NOT the full verification (seeded C18-8) -/
 
